@@ -43,6 +43,16 @@ def gen_embargo(ctx, sd, ncalls, maxpump):
     return out, states, gen
 
 
+def gen_windows(ctx, sd):
+    """Scripts of spec/rpc/RpcWindow.tla: the peer / the application act while a message of the connection is in flight."""
+    r = tlc.run(ctx, sd, "RpcWindow", cfg="RpcWindow.cfg", workers=1, timeout=600)
+    out = r.tagged("SCRIPT")
+    if not out:
+        raise Inconclusive("RpcWindow produced no scripts")
+    out.sort(key=lambda x: json.dumps(x, sort_keys=True))
+    return out, r.distinct
+
+
 def run_scripts(ctx, drv, scripts, tf):
     """Runs scripts through rpcdrv (restarting after hangs / deaths); returns (violations-by-driver, summary)."""
     sf = ctx.path("scripts.ndjson")
@@ -110,11 +120,11 @@ def run_scripts(ctx, drv, scripts, tf):
 # every event kind the trace specification has an action for; anything else in a trace is an error of the machinery
 ENDSTATE_EVENTS = {"reset", "hostile", "msg", "l-call", "l-pcall", "l-result", "app-return", "shutdown", "close", "close-returned",
                    "transport-closed", "done", "view", "end", "app-start", "app-cancelled", "reported", "fault", "quiesce", "l-bootstrap",
-                   "l-handle", "l-release", "peer-deliver", "peer-echo",
+                   "l-handle", "l-release", "peer-deliver", "peer-echo", "held", "hold-expired", "released",
                    # events the end-state specification deliberately has no action for (their presence is the violation)
                    "send-after-close", "close-hung", "not-done"}
 KNOWN_EVENTS = {"reset", "msg", "app-start", "app-return", "app-cancelled", "shutdown", "l-handle", "l-release", "l-result", "l-bootstrap",
-                "l-call", "l-pcall", "reported", "fault", "transport-closed", "done", "end", "peer-deliver", "peer-echo", "view",
+                "l-call", "l-pcall", "held", "hold-expired", "released", "reported", "fault", "transport-closed", "done", "end", "peer-deliver", "peer-echo", "view",
                 "quiesce", "close", "close-returned"}
 MAX_REJECTED = 60
 
